@@ -38,7 +38,7 @@ EXCS = [KeyError('k'), IndexError('i'), ZeroDivisionError('z'),
 
 def cases(tier, seed):
   out = []
-  nrep = 1 if tier == 'quick' else 6
+  nrep = 1 if tier == 'quick' else 30
   for ei, name in enumerate(E.ALL):
     for ki, kind in enumerate(KINDS):
       for r in range(nrep):
